@@ -270,13 +270,131 @@ func (w *World) rulesNomenclature(out *[]Obligation) {
 			return true
 		})
 	}
+	// integer locals defined once as an OR of bit selections (t := c.u2 & 0x0C):
+	// a later `t != 0` tests those bits
+	bitLocals := map[types.Object][]BitPos{}
+	localDef := map[ast.Node]bool{}
+	for _, f := range fns {
+		ast.Inspect(f.Body, func(n ast.Node) bool {
+			as, ok := n.(*ast.AssignStmt)
+			if !ok || as.Tok != token.DEFINE || len(as.Lhs) != len(as.Rhs) {
+				return true
+			}
+			for i, l := range as.Lhs {
+				o := identObj(p.Info, l)
+				if o == nil || assignedIn(p.Info, f.Body, o) {
+					continue
+				}
+				if tv, ok := p.Info.Types[as.Rhs[i]]; !ok || !isUint8(tv.Type) {
+					continue
+				}
+				if bs, ok := p.orBitsL(as.Rhs[i], bitLocals); ok {
+					bitLocals[o] = bs
+					localDef[as.Rhs[i]] = true
+				}
+			}
+			return true
+		})
+	}
 	involved := map[string]bool{}
 	fullEnum := map[string]bool{}
 	donePred := map[ast.Expr]bool{}
 	nReaders := 0
+	// predicates over bit locals: `t != 0`, `t != 0 || e != 0`
+	handlePred := func(pred ast.Expr, bits []BitPos) {
+		if donePred[pred] {
+			return
+		}
+		donePred[pred] = true
+		whole, partial, _ := p.metricsOfBits(bits)
+		for _, m := range whole {
+			involved[m] = true
+		}
+		for _, m := range partial {
+			involved[m] = true
+			fullEnum[m] = true
+			if om := ov.byAbv[m]; om != nil && om.Group != "threat" && om.Group != "environmental" {
+				add(false, "R16.whole", "Nomenclature["+m+"]", pred, fmt.Sprintf("the test reads a bit of %s, a %s metric, which must not influence the nomenclature", m, om.Group))
+			} else {
+				add(false, "R16.whole", "Nomenclature["+m+"]", pred, fmt.Sprintf("the test covers only part of the field of %s: some defined value of %s is not noticed", m, m))
+			}
+		}
+	}
+	if len(bitLocals) > 0 {
+		usedInPred := map[*ast.Ident]bool{}
+		for _, f := range fns {
+			ast.Inspect(f.Body, func(n ast.Node) bool {
+				be, ok := n.(*ast.BinaryExpr)
+				if !ok {
+					return true
+				}
+				mentions := false
+				ast.Inspect(be, func(x ast.Node) bool {
+					if id, ok := x.(*ast.Ident); ok {
+						if _, isL := bitLocals[p.Info.Uses[id]]; isL {
+							mentions = true
+						}
+					}
+					return true
+				})
+				if !mentions {
+					return true
+				}
+				if bits, ok := p.anyBits(be, bitLocals); ok {
+					handlePred(be, bits)
+					ast.Inspect(be, func(x ast.Node) bool {
+						if id, ok := x.(*ast.Ident); ok {
+							usedInPred[id] = true
+						}
+						return true
+					})
+					return false
+				}
+				return true
+			})
+			// a bit local used anywhere else carries its bits there: enumerate fully
+			ast.Inspect(f.Body, func(n ast.Node) bool {
+				if id, ok := n.(*ast.Ident); ok {
+					if bs, isL := bitLocals[p.Info.Uses[id]]; isL && !usedInPred[id] {
+						_, partial, _ := p.metricsOfBits(bs)
+						whole, _, _ := p.metricsOfBits(bs)
+						for _, m := range append(whole, partial...) {
+							// only when the use is not itself the definition of another bit local
+							_ = m
+						}
+						escapes := true
+						for def := range localDef {
+							if def.Pos() <= id.Pos() && id.End() <= def.End() {
+								escapes = false
+							}
+						}
+						if escapes {
+							for _, m := range append(whole, partial...) {
+								involved[m] = true
+								fullEnum[m] = true
+							}
+						}
+					}
+				}
+				return true
+			})
+		}
+	}
 	for _, f := range fns {
 		for _, r := range p.readersIn(f.Body) {
 			nReaders++
+			// a read inside the definition of a bit local is accounted for by the tests on that local
+			inLocalDef := false
+			for def := range localDef {
+				for _, pn := range r.Path {
+					if pn == def {
+						inLocalDef = true
+					}
+				}
+			}
+			if inLocalDef {
+				continue
+			}
 			var pred ast.Expr
 			for i := len(r.Path) - 1; i >= 0; i-- {
 				e, ok := r.Path[i].(ast.Expr)
@@ -292,7 +410,7 @@ func (w *World) rulesNomenclature(out *[]Obligation) {
 			var bits []BitPos
 			okPred := false
 			if pred != nil {
-				bits, okPred = p.anyBits(pred, nil)
+				bits, okPred = p.anyBits(pred, bitLocals)
 			}
 			if !okPred {
 				for _, m := range r.Metrics {
